@@ -124,6 +124,23 @@ INVARIANT Exclusive
         uris = [x["uri"] for x in tab["gate"]]
         rng = random.Random(ctx.seed + 20)
         extra_uris = [L(utils.random_stager_uri().encode()), L(utils.random_stager_uri(x64=True).encode()), L(b"/submit.php"), L(b"/aaa9")]
+        # URIs with percent escapes: the classification is about the bytes on the wire, not about their decoded form.
+        # (a) the escaped text sums to 92 / 93 only after decoding, (b) the wire form sums to 92 / 93 but the decoded form does not
+        import urllib.parse
+
+        ck = lambda b: sum(b) % 256  # noqa: E731
+        esc_uris = []
+        for want_raw in (False, True):
+            found = 0
+            while found < 6:
+                a = bytes(rng.choice(b"abcdefghijklmnopqrstuvwxyzABCDEFGHIJKLMNOPQRSTUVWXYZ0123456789") for _ in range(rng.choice([2, 3])))
+                c = rng.choice(b"abcdefghijklmnopqrstuvwxyzABCDEFGHIJKLMNOPQRSTUVWXYZ0123456789")
+                raw = b"/" + a[:1] + b"%%%02x" % c + a[1:]
+                dec = urllib.parse.unquote_to_bytes(raw)
+                if (ck(raw[1:]) in (92, 93)) == want_raw and (ck(dec[1:]) in (92, 93)) != want_raw and len(dec) == 5:
+                    esc_uris.append(L(raw))
+                    found += 1
+        extra_uris += esc_uris
         for known in (True, False):
             for uri in [u for i, u in enumerate(uris) if i % 2 == 0] + extra_uris:
                 for method in (b"GET", b"POST", b"HEAD"):
@@ -197,12 +214,17 @@ INVARIANT Exclusive
     # buffers beyond 64 KiB (too large to hand to TLC): xor with keys of several lengths and both NetBIOS alphabets against the
     # definitions written out in Python - XorRep and the nibble encoding of CodecR are position-wise, so size adds no new case
     # to the specification, only to the implementation
-    for size in ([65536, 131073] if q else [65535, 65536, 65537, 131073, 262147, 1048577]):
+    def xor_ref(d, key):
+        """position-wise definition, computed on big integers (fast enough for tens of megabytes)"""
+        rep = (key * (len(d) // len(key) + 1))[: len(d)]
+        return (int.from_bytes(d, "big") ^ int.from_bytes(rep, "big")).to_bytes(len(d), "big") if d else b""
+
+    for size in ([65536, 131073, 8388608 + 5] if q else [65535, 65536, 65537, 131073, 262147, 1048577, 8388607, 8388608, 8388609, 16777216 + 3, 33554432 + 1]):
         d = rng.randbytes(size)
-        for key in (b"\x5a", b"\x01\x02", b"abc", rng.randbytes(4), rng.randbytes(5), rng.randbytes(16), rng.randbytes(251)):
+        for key in ((b"\x5a", b"abc", rng.randbytes(4), rng.randbytes(7), rng.randbytes(251)) if size > 2**20 else (b"\x5a", b"\x01\x02", b"abc", rng.randbytes(4), rng.randbytes(5), rng.randbytes(16), rng.randbytes(251))):
             o = core.outcome(utils.xor, d, key)
             ctx.evaluations += 1
-            if o[0] != "ok" or bytes(o[1]) != bytes(b ^ key[i % len(key)] for i, b in enumerate(d)):
+            if o[0] != "ok" or bytes(o[1]) != xor_ref(d, key):
                 first = next((i for i, (a, b) in enumerate(zip(bytes(o[1]), d)) if a != b ^ key[i % len(key)]), -1) if o[0] == "ok" else -1
                 viol("xor", "large_buffer", {"size": size, "keylen": len(key), "first_difference_at": first, "got": o[0]})
             ctx.count_distinct(("xor_large", size, len(key)))
